@@ -55,12 +55,15 @@ def opt_term(x):
     return 'None' if x is None else f'(Some {coq_ustr(x)})'
 
 
-def defaults_class(defaults):
-    params = ', '.join(f'{k}=None' for k in defaults)
+def defaults_class(params, overrides):
+    """params: list of (name, has_default, default); required ones first."""
+    sig = ', '.join(f'{n}=None' if h else n for n, h, _ in params)
     ns = {}
-    exec(f'class _D:\n    def __init__(self, {params}):\n        pass\n', ns)
+    exec(f'class _D:\n    def __init__(self, {sig}):\n        pass\n', ns)
     cls = ns['_D']
-    cls._yatiml_defaults = dict(defaults)
+    cls.__init__.__defaults__ = tuple(d for _, h, d in params if h) or None
+    if overrides is not None:
+        cls._yatiml_defaults = dict(overrides)
     return cls
 
 
@@ -99,8 +102,9 @@ def op_term(op):
     if k == 'd2u':
         return 'OpD2U'
     if k == 'rmdefaults':
-        return ('(OpRemoveDefaults [' + '; '.join(f'({coq_ustr(n)}, {encode.value_term(d)})' for n, d in op[1].items())
-                + '])')
+        ps = '; '.join(f'({coq_ustr(n)}, {"(Some " + encode.value_term(d) + ")" if h else "None"})' for n, h, d in op[1])
+        ov = '; '.join(f'({coq_ustr(n)}, {encode.value_term(d)})' for n, d in (op[2] or {}).items())
+        return f'(OpRemoveDefaults [{ps}] [{ov}])' 
     if k == 'seq2map':
         return f'(OpSeqToMap {coq_ustr(op[1])} {coq_ustr(op[2])} {opt_term(op[3])} {"true" if op[4] else "false"})'
     if k == 'map2seq':
@@ -154,7 +158,7 @@ def apply_op(N, op):
         N.dashes_to_unders_in_keys()
         return ('none', None)
     if k == 'rmdefaults':
-        N.remove_attributes_with_default_values(defaults_class(op[1]))
+        N.remove_attributes_with_default_values(defaults_class(op[1], op[2]))
         return ('none', None)
     if k == 'seq2map':
         N.seq_attribute_to_map(op[1], op[2], op[3], op[4])
